@@ -541,6 +541,8 @@ class Parser:
     def _parse_throw_statement(self) -> ThrowStatement:
         """Parse throw statement."""
         throw_token = self.previous  # The 'throw' keyword
+        if self.current.newline_before:
+            raise self._error("Illegal line break after throw")
         argument = self._parse_expression()
         self._consume_semicolon()
         return self._loc(ThrowStatement(argument), throw_token)
@@ -1050,8 +1052,12 @@ class Parser:
                 args = self._parse_arguments()
                 self._expect(TokenType.RPAREN, "Expected ')' after arguments")
                 expr = CallExpression(expr, args)
-            elif self._check(TokenType.PLUSPLUS, TokenType.MINUSMINUS):
-                # Postfix increment/decrement
+            elif (
+                self._check(TokenType.PLUSPLUS, TokenType.MINUSMINUS)
+                and not self.current.newline_before
+            ):
+                # Postfix increment/decrement (on the same line: after a line break
+                # ++ starts the next statement)
                 self._check_assignment_target(expr)
                 op = self._advance().value
                 expr = UpdateExpression(op, expr, prefix=False)
